@@ -13,7 +13,7 @@ frame alphabet; thorough goes to length 5.
 """
 
 from checks import common
-from sim import core, device, link, sched
+from sim import core, device, link, sched, wire as W
 from sim.observe import embed_offsets, run_reader
 from sim.runner import UnitResult
 
@@ -53,6 +53,13 @@ def generate(seed: int, tier: str = "quick") -> dict:
     frames = common.gen_mixed_frames(r_dev, r_lnk, n, cfg, pre, variant_fault=variant)
     if variant:
         pre.hit("fault_firmware_variant")
+    if r_cfg.random() < 0.02:
+        # one large frame whose size sits on a multiple of a block size a reader might read in
+        nbig = device.block_length(r_dev)
+        data = W.ubx_frame(r_cfg.choice((0x02, 0x66, 0x0A)), r_cfg.choice((0x13, 0x77, 0x04)), device.payload_bytes(r_dev, nbig, "zeros"))
+        frames = frames[:3]
+        frames.insert(r_cfg.randrange(len(frames) + 1), {"kind": "ubx", "hex": data.hex(), "faults": [], "note": f"block-size frame payload {nbig}"})
+        pre.hit("block_size_frames")
     spans = sched.spans_of(frames)
     wire_len = spans[-1][1] if spans else 0
     roll = r_sch.random()
@@ -75,7 +82,11 @@ def generate(seed: int, tier: str = "quick") -> dict:
             k = r_sch.randrange(1, len(segs))
             for s in segs[k:]:
                 s[0] = round(s[0] + r_sch.choice((1.5, 3.0, 10.0)), 6)
-        tr = {"kind": "socket", "segments": segs, "timeout": 1.0, "end": r_sch.choice(("close", "timeout")), "host_delay": 0.0, "stress": "stall", "rereads": 14, "redrive": r_sch.choice(("read", "iter"))}
+        tr = {"kind": "socket", "segments": segs, "timeout": 1.0, "end": r_sch.choice(("close", "timeout")), "host_delay": 0.0, "stress": "stall", "rereads": 14, "redrive": r_sch.choice(("read", "iter")), "nonblocking": r_sch.random() < 0.35}
+        if r_sch.random() < 0.25:
+            # the application had another connection before this one: it read from it, closed it
+            # locally and still holds that reader; the new socket gets the same descriptor number
+            tr["previous_connection"] = device.garbage(r_sch, n=r_sch.choice((0, 5, 40))).hex() + device.ubx_common(r_sch)[0].hex() + device.nmea_any(r_sch)[0].hex()
         cfg["bufsize"] = r_sch.choice(sched.BUFSIZES)
     else:
         sizes = sched.random_segments(r_sch, wire_len, spans)
@@ -99,7 +110,18 @@ def _drive(wire, cfg, tr):
     from sim.transports import SimBudgetExceeded, make_transport  # pylint: disable=import-outside-toplevel
 
     out = Outcome()
-    tp = make_transport(wire, tr)
+    old_reader = None
+    if tr.get("previous_connection") is not None:
+        prev = make_transport(bytes.fromhex(tr["previous_connection"]), {"kind": "socket", "end": "timeout", "timeout": 1.0, "fileno": 7})
+        old_reader = UBXReader(prev, quitonerror=0, bufsize=cfg.get("bufsize", 4096))
+        for _ in range(2):
+            try:
+                if old_reader.read() == (None, None):
+                    break
+            except Exception:  # pylint: disable=broad-except
+                break  # what the earlier connection carried is history, not under judgement here
+        prev.close()  # closed locally; the reader object stays referenced for the rest of the run
+    tp = make_transport(wire, dict(tr, fileno=7))
     out.transport = tp
     kw = reader_kwargs(cfg)
     kw["errorhandler"] = lambda err: out.events.append(("E",) + canon_exc(err))
@@ -135,6 +157,7 @@ def _drive(wire, cfg, tr):
         out.exc = canon_exc(err)
     finally:
         core.VirtualClock.source = None
+    del old_reader
     return out, late
 
 
